@@ -163,7 +163,7 @@ pub fn replay(case: &Value) -> Option<String> {
         } else {
             big
         };
-        let fam: Vec<(String, GraphColoredVertices)> = argument_family(&big.graph).into_iter().step_by(case["p_step"].as_u64().unwrap_or(1) as usize).collect();
+        let fam: Vec<(String, GraphColoredVertices)> = argument_family_mode(&big.graph, m.starts_with("synthetic:")).into_iter().step_by(case["p_step"].as_u64().unwrap_or(1) as usize).collect();
         let (pi, qi, ri) = (case["p"].as_u64()? as usize, case["q"].as_u64()? as usize, case["r"].as_u64()? as usize);
         if law_name == "library" {
             return check_library(&big.graph, &fam[pi].1, &fam[qi].1);
@@ -191,7 +191,14 @@ fn all_sets(ncols: usize, nstates: usize) -> Vec<Vec<Mask>> {
 
 /// Declared argument family on a bundled model (name, set).
 pub fn argument_family(g: &SymbolicAsyncGraph) -> Vec<(String, GraphColoredVertices)> {
-    let vars: Vec<_> = g.variables().take(4).collect();
+    argument_family_mode(g, false)
+}
+
+/// `points_only`: only the literals of the first variable, single states, small cubes and their
+/// complements (used for the synthetic wide networks, where fixed points over literal combinations
+/// take exponentially long).
+pub fn argument_family_mode(g: &SymbolicAsyncGraph, points_only: bool) -> Vec<(String, GraphColoredVertices)> {
+    let vars: Vec<_> = g.variables().take(if points_only { 1 } else { 4 }).collect();
     let unit = g.mk_unit_colored_vertices();
     let mut base: Vec<(String, GraphColoredVertices)> = vec![];
     let lits: Vec<(String, GraphColoredVertices)> = vars
@@ -229,8 +236,21 @@ pub fn argument_family(g: &SymbolicAsyncGraph) -> Vec<(String, GraphColoredVerti
             fam.push((format!("{n}@{hn}"), s.intersect(h)));
         }
     }
+    // single states (x all colours) and their complements: arguments on which one fixed-point
+    // iteration changes only a tiny fraction of the set
+    let nv = g.num_vars();
+    for (sname, pat) in [("1111000..", 0u8), ("0100000..", 1), ("alternating", 2)] {
+        let vals: Vec<(biodivine_lib_param_bn::VariableId, bool)> = g.variables().enumerate().map(|(i, v)| (v, match pat { 0 => i < 4, 1 => i == 1, _ => i % 2 == 0 })).collect();
+        let single = g.mk_subspace(&vals);
+        fam.push((format!("state {sname}"), single.clone()));
+        fam.push((format!("all but state {sname}"), unit.minus(&single)));
+        // a sub-cube fixing all but the last three variables, and its complement
+        let cube = g.mk_subspace(&vals[..nv.saturating_sub(3)]);
+        fam.push((format!("cube around {sname}"), cube.clone()));
+        fam.push((format!("all but cube around {sname}"), unit.minus(&cube)));
+    }
     // results of fixed formulae
-    for t in ["!{x}: AX {x}", "!{x}: AG EF {x}"] {
+    for t in if points_only { vec![] } else { vec!["!{x}: AX {x}", "!{x}: AG EF {x}"] } {
         if let Ok(Ok(s)) = guarded(AssertUnwindSafe(|| mc::model_check_formula_dirty(t, g))) {
             fam.push((format!("result of {t}"), s));
         }
@@ -257,7 +277,7 @@ pub fn job(job: &Value) -> Value {
     } else {
         big
     };
-    let fam = argument_family(&big.graph);
+    let fam = argument_family_mode(&big.graph, name.starts_with("synthetic:"));
     let all = laws();
     let li = job["law_index"].as_u64().unwrap_or(0) as usize;
     let p_step = job["p_step"].as_u64().unwrap_or(1) as usize;
@@ -383,7 +403,7 @@ pub fn run(tier: &str) -> Result<Report, String> {
     let limit = if tier == "quick" { 20.0 } else { 300.0 };
     // (model, number of erased update functions, p_step, q_count)
     let models: Vec<(&str, u64, u64, u64)> = if tier == "quick" {
-        vec![("pystablemotifs-models/myeloid.aeon", 0, 1, 4), ("cell_division", 0, 6, 4)]
+        vec![("pystablemotifs-models/myeloid.aeon", 0, 1, 4), ("cell_division", 0, 6, 4), ("synthetic:chain60", 0, 1, 4)]
     } else {
         vec![
             ("pystablemotifs-models/myeloid.aeon", 0, 1, 10),
@@ -392,6 +412,8 @@ pub fn run(tier: &str) -> Result<Report, String> {
             ("inference-benchmarks/110_9v/model_parametrized.aeon", 0, 2, 10),
             ("large-colored-models/set1-tacas/tacas2.aeon", 0, 2, 10),
             ("pystablemotifs-models/EMT.aeon", 0, 2, 10),
+            ("synthetic:chain60", 0, 1, 10),
+            ("synthetic:chain58p", 0, 1, 10),
         ]
     };
     let mut jobs = vec![];
